@@ -111,6 +111,7 @@ def run(ctx):
     except build.BuildError as e:
         ctx.tie_broken.append('replay driver: ' + str(e)[:300]); rexe = None
     cfgs = ['base', 'dbg8'] + (['rel'] if thorough else [])
+    build.warm(cfgs, [('temp', ['h_temp.cpp'], {})])
     exe = {c: build.build_harness('temp', c, ['h_temp.cpp']) for c in cfgs}
     scripts = systematic_cases(200 if thorough else 40) + [gen_case(rng) for _ in range(600 if thorough else 120)]
     cases = [dict(exe=exe[c], script=sc, replay_args=['temp', 'fixed'], tag=(('systematic' if i < len(scripts) - (600 if thorough else 120) else 'seeded'), c)) for i, sc in enumerate(scripts) for c in cfgs]
